@@ -215,6 +215,10 @@ def r2_rewind(ctx, rule='C12.R2', only=None, floor=6):
                         continue
                     if isinstance(c2.func, ast.Attribute) and isinstance(c2.func.value, ast.Name) and c2.func.value.id == p:
                         continue
+                    # releasing the response / file in a `finally` is what leaving a `with` block does (the exit of a context
+                    # manager is not counted either): the two spellings are judged alike
+                    if isinstance(c2.func, ast.Attribute) and c2.func.attr in ('close', 'aclose') and not c2.args and any(isinstance(a, ast.Try) and any(is_within(c2, b) for b in a.finalbody) for a in ancestors(c2)):
+                        continue
                     tries = [a for a in ancestors(c2) if isinstance(a, ast.Try) and any(is_within(c2, b) for b in a.body)]
                     prot = any(is_catch_all(h, accept_exception=True) and _rewinds(h.body, p) and handler_reraises(h) for t in tries for h in t.handlers)
                     n += 1
